@@ -19,7 +19,7 @@ use sliding_features::View;
 
 pub struct C13;
 
-#[derive(Clone, Copy, Debug)]
+#[derive(Clone, Copy, Debug, PartialEq)]
 enum Shape {
     /// random walk reflected into [1, 1000]
     Walk,
@@ -36,8 +36,11 @@ enum Shape {
     /// a high level with a small spread (990 + up to 1/32, 5/16 or 10 by seed): where a sum of
     /// squares minus the squared mean cancels
     Narrow,
+    /// 2^41 + {0, 1, 2, 3}: a level 1e12 times the spread (time stamps, large identifiers); at most
+    /// 16 000 values (the exact reference keeps n^2 x sum of squares in an i128)
+    HugeLevel,
 }
-const SHAPES: [Shape; 8] = [Shape::Walk, Shape::PeaksAndTroughs, Shape::EqualPeaks, Shape::Rising, Shape::Falling, Shape::Flats, Shape::ThreeDecades, Shape::Narrow];
+const SHAPES: [Shape; 9] = [Shape::Walk, Shape::PeaksAndTroughs, Shape::EqualPeaks, Shape::Rising, Shape::Falling, Shape::Flats, Shape::ThreeDecades, Shape::Narrow, Shape::HugeLevel];
 
 /// integer stream k_t (value = k_t / 64), positive
 struct Stream {
@@ -98,7 +101,13 @@ impl Stream {
                 let w = self.width;
                 64 * 990 + self.r(w)
             }
+            Shape::HugeLevel => 0,
         };
+        if self.shape == Shape::HugeLevel {
+            let k = (1i64 << 47) + 64 * self.r(4);
+            self.k = k;
+            return k;
+        }
         let k = if k < lo {
             lo + (lo - k).min(hi - lo)
         } else if k > hi {
@@ -209,16 +218,18 @@ fn run_f64(vi: usize, shape: Shape, seed: u64, len: u64, out: &mut TrialOut) {
             0 => {
                 let (m, var) = v.aux().unwrap();
                 let (em, ev) = (b.mean_f(), b.var_f());
-                let scale = 1000.0;
+                // (HugeLevel: rounding noise is relative to the level; 2e-13 of it separates Welford's
+                // noise there - measured below 3e-14 over 16 000 values - from a spread of 1e-12 of the level)
+                let (scale, tol) = if shape == Shape::HugeLevel { (2199023255552.0, 2e-13) } else { (1000.0, 1e-11) };
                 let es = ev.max(0.0).sqrt();
                 let g = got.unwrap_or(f64::NAN);
                 worst = worst.max((g - es).abs() / scale).max((m - em).abs() / scale);
                 // rounding noise of Welford's update on these streams: <= 6e-14 of scale at 1.7e7 values
-                if !((m - em).abs() <= 1e-11 * scale) {
+                if !((m - em).abs() <= tol * scale) {
                     fail(out, name, "mean", "f64", t, format!("mean() = {:e}", m), format!("{:e}", em), shape, seed);
                     return;
                 }
-                if !((g - es).abs() <= 1e-11 * scale) || !((var - ev).abs() <= 1e-11 * scale * scale) {
+                if !((g - es).abs() <= tol * scale) || !((var - ev).abs() <= tol * scale * scale) {
                     fail(out, name, "population-std", "f64", t, format!("last() = {:e}, variance() = {:e}", g, var), format!("std {:e}, variance {:e}", es, ev), shape, seed);
                     return;
                 }
@@ -331,6 +342,8 @@ impl Monitor for C13 {
         out.key(mix(hash_str(&format!("{}{:?}{}", NAMES[vi], shape, rep)), seed));
         // lengths L, 4L, 16L share one tolerance
         let l = cfg.tier.pick(20_000u64, 600_000);
+        // (HugeLevel: short streams only, see the shape)
+        let l = if shape == Shape::HugeLevel { 1000 } else { l };
         match rep % 4 {
             0 => run_exact(vi, shape, seed, cfg.tier.pick(1_200, 3_000), out),
             1 => run_f64(vi, shape, seed, l, out),
@@ -350,7 +363,7 @@ impl Monitor for C13 {
         v
     }
     fn rule(&self) -> String {
-        "trial = (WelfordRolling | Drawdown | LnReturn; stream shape: reflected walk, peaks after deeper troughs, repeated equal peaks, monotone runs, long flat stretches, three decades, a high level with a small spread (990 + up to 1/32, 5/16 or 10); seed; length). After every update: mean()/variance()/last() vs exact mean and population variance/std of all values so far (integer-scaled sums in i128), Drawdown vs the largest (peak_j - x_j)/peak_j over all j with the running peak, LnReturn vs ln(x_t/x_(t-1)). Equality at the exact scalar (1.2e3 / 3e3 values); at f64 tolerance 1e-11 of scale (observed on the unchanged tree: 6e-14; Drawdown 1e-12, LnReturn 1e-14) at every step of streams of L, 4L and 16L values (L = 2e4 quick, 6e5 thorough: 16L = 3.2e5 / ~1e7), the same tolerance at every length. distinct = distinct (view, shape, seed, length)".into()
+        "trial = (WelfordRolling | Drawdown | LnReturn; stream shape: reflected walk, peaks after deeper troughs, repeated equal peaks, monotone runs, long flat stretches, three decades, a high level with a small spread (990 + up to 1/32, 5/16 or 10), 2^41 + {0..3} on at most 16 000 values; seed; length). After every update: mean()/variance()/last() vs exact mean and population variance/std of all values so far (integer-scaled sums in i128), Drawdown vs the largest (peak_j - x_j)/peak_j over all j with the running peak, LnReturn vs ln(x_t/x_(t-1)). Equality at the exact scalar (1.2e3 / 3e3 values); at f64 tolerance 1e-11 of scale (observed on the unchanged tree: 6e-14; Drawdown 1e-12, LnReturn 1e-14) at every step of streams of L, 4L and 16L values (L = 2e4 quick, 6e5 thorough: 16L = 3.2e5 / ~1e7), the same tolerance at every length. distinct = distinct (view, shape, seed, length)".into()
     }
     fn assumptions(&self) -> Vec<String> {
         vec!["positive inputs k/64 in [1, 1000]".into(), "'any length' restated as: the same tolerance holds at L, 4L, 16L".into()]
